@@ -16,6 +16,7 @@ from ..engine import rx
 from ..engine.facts import dotted, const, src, walk_func, str_value, ancestors
 from ..engine import pattern as P
 from .common import calls, access_paths, pn
+from . import c03  # printer-indents-first-line-only is registered for C19 there
 
 # expression classes of the statement's grammar
 EXPR_CLASSES = ["Name", "Constant", "Attribute", "Subscript", "Slice", "Call", "Starred", "UnaryOp", "BinOp", "BoolOp", "Compare",
